@@ -34,6 +34,8 @@ func init() {
 			"the datasource announces exactly the JSON fields the model serialises per __typename; the planner's input keys are the keys Source.Load decodes; the planner's includeDeprecated filter covers every collection whose elements carry isDeprecated and reads the key the model writes. " +
 			"It does not decide the round trip toSDL(fromIntrospection(generate(S))) ~ S nor the engine's answers as values.",
 		Mutants: []Mutant{
+			{Name: "deprecation reason read without a kind test (reverts part of the F47 fix)", File: "v2/pkg/introspection/generator.go", Rule: "C17-R15", Key: "introspectionVisitor.deprecationReason/partial-value-accessor-under-kind-test",
+				Old: "\t\tif argValue.Kind != ast.ValueKindString {\n\t\t\treturn nil\n\t\t}\n", New: ""},
 			{Name: "includeDeprecated looked up once per cached plan (seeded change C17-21, without the sync import)", File: "v2/pkg/engine/plan/visitor.go", Rule: "C17-R13", Key: "Visitor.resolveSkipArrayItem/plan-closure-is-stateless",
 				Old: "\t\treturn func(ctx *resolve.Context, itemValue *astjson.Value) bool {\n\t\t\tshouldIncludeDeprecated := false\n\n\t\t\tif includeDeprecatedVariableName != \"\" {\n",
 				New: "\t\tshouldIncludeDeprecated, looked := false, false\n\t\treturn func(ctx *resolve.Context, itemValue *astjson.Value) bool {\n\t\t\tif !looked && includeDeprecatedVariableName != \"\" {\n\t\t\t\tlooked = true\n"},
@@ -229,6 +231,10 @@ func c17ReportsError(info *types.Info, cc *ast.CaseClause) bool {
 func runC17(r *fw.Run) {
 	defer c17SourceIsReadOnly(r)
 	defer c17TemplatePlaceholdersNotInsideStrings(r)
+	defer func() {
+		r.Rule("C17-R15", "the introspection generator calls the partial value accessors (ast.Document.ValueContentBytes/String, which panic for five of the nine value kinds) only after a test of the value's kind that admits their domain")
+		partialValueAccessorsGuarded(r, "C17-R15", []string{"introspection"}, 2)
+	}()
 	defer c17PlanClosuresAreStateless(r)
 	defer func() {
 		// the converter imports default values into the SDL document through astimport: a value kind without an arm (the default
